@@ -147,6 +147,22 @@ func checkUnpad(rep *Reporter, kind string, c byte, v []byte) {
 
 func runC20(t gen.Tier, r *gen.Rng, rep *Reporter) {
 	spare := []byte{0xEE, 0xEE, 0xEE, 0xEE, 0xEE, 0xEE, 0xEE, 0xEE}
+	// first of all (before this process has made any single-byte padder): padders for other runes with the
+	// same low byte, then the single-byte one — whichever of the two a table keeps, it must not be handed
+	// out for the other
+	for c := 0; c < 128; c++ {
+		// all the other padders first: a table that keeps the FIRST padder of a slot is as wrong as one
+		// that keeps the last
+		_ = padding.Left(0x100 + rune(c))
+		_ = padding.Right(0x100 + rune(c))
+	}
+	for _, kind := range []string{"L", "R"} {
+		for c := 0; c < 128; c++ {
+			for _, hi := range []rune{0x100, 0x200, 0x2000, 0x10000, 0x80} {
+				checkPadAfterOthers(rep, kind, byte(c), hi+rune(c))
+			}
+		}
+	}
 	for _, kind := range []string{"L", "R"} {
 		for c := 0; c < 128; c++ {
 			if !t.Thorough && c%5 != 0 && c != '0' && c != ' ' {
@@ -167,14 +183,6 @@ func runC20(t gen.Tier, r *gen.Rng, rep *Reporter) {
 				}
 			}
 			rec(nil)
-		}
-	}
-	for _, kind := range []string{"L", "R"} {
-		for c := 0; c < 128; c++ {
-			for _, hi := range []rune{0x80, 0x100, 0x200, 0x2000, 0x10000} {
-				checkPadAfterOthers(rep, kind, byte(c), hi+rune(c))
-			}
-			checkPadAfterOthers(rep, kind, byte(c), rune((c+1)%128))
 		}
 	}
 	for _, kind := range []string{"nil", "none"} {
@@ -680,6 +688,19 @@ func checkSeqStable(rep *Reporter, line string) {
 				rep.Viol("the result of an operation on a shared padder / encoder / prefixer depends on the calls before it or was changed by a call after it", line,
 					fmt.Sprintf("operation %d (%s): in the sequence %q, on its own %q", i+1, sub, parts[i], alone))
 				return
+			}
+		}
+		// and the per-call laws still hold AFTER the sequence (whatever the sequence left behind in the
+		// process — a table overwritten through the spare capacity of a result — shows here)
+		for _, sub := range subs {
+			f := strings.Split(sub, ",")
+			if len(f) == 5 && f[0] == "P" && f[2] == "enc" && impl.Prefixer(f[1]) != nil {
+				maxLen, e1 := strconv.Atoi(f[3])
+				n, e2 := strconv.Atoi(f[4])
+				if e1 == nil && e2 == nil {
+					checkPrefix(rep, f[1], maxLen, n)
+					checkPrefix(rep, f[1], maxLen, n+1)
+				}
 			}
 		}
 	})
